@@ -29,7 +29,7 @@ CHECKS = [
              'ellipse (closed, axes w,h along u,u-perp), rectangle (open), annuli (inner subset outer hence outer minus inner, and the shared '
              'include flag still yields the exact complement), points/lines/text (nothing), for ALL parameters, unit vectors and query points; '
              'include flag = exact complement for every value in {absent,True,False,1,0}; result shape = query shape for every class. '
-             'Polygons: proved laws of the even-odd implementation (division-free form, edge symmetry, translation invariance, axis rectangles exact, '
+             'Polygons: proved laws of the even-odd implementation (division-free form, edge symmetry, translation invariance, start-vertex and orientation independence, axis rectangles exact, '
              'confinement to the vertex range via parity of straddling edges); "even-odd = inside" for arbitrary polygons is NOT a theorem '
              '(needs Jordan curve) and is decided by the differential run against an exact-rational crossing oracle.',
      'note': 'Trusted: Lean kernel/Mathlib/3 std axioms; hand model Shapes.lean/Region.lean tied to the code by the correspondence run '
